@@ -75,7 +75,31 @@ func TestC08(t *testing.T) {
 	rapid.Check(t, func(rt *rapid.T) {
 		var sc *Scenario
 		var info HostileInfo
-		switch rapid.IntRange(0, 7).Draw(rt, "family") {
+		switch rapid.IntRange(0, 9).Draw(rt, "family") {
+		case 8, 9:
+			// the chains of the property-focused generators: the other checks report a chain that does
+			// not sync as inconclusive ("C08's business"), so C08 must see the same chains
+			switch rapid.IntRange(0, 5).Draw(rt, "borrowed") {
+			case 0:
+				sc, _ = GenStakingScenario(rt, st)
+				info.Kinds = []string{"staking-chain"}
+			case 1:
+				sc, _ = GenBandScenario(rt, st)
+				info.Kinds = []string{"band-chain"}
+			case 2:
+				sc, _ = GenBankScenario(rt, st)
+				info.Kinds = []string{"peg-bank-chain"}
+			case 3:
+				sc, _ = GenAdmissionScenario(rt, st, false)
+				info.Kinds = []string{"admission-chain"}
+			case 4:
+				sc, _ = genPIP10Scenario(rt, st)
+				info.Kinds = []string{"pip10-chain"}
+			default:
+				sc, _ = GenGradingScenario(rt, st)
+				info.Kinds = []string{"grading-chain"}
+			}
+			info.Structured = 1
 		case 0: // every era in mainnet's order (legacy graders, burns, PEG bank, 2.0, 2.0.2, mint, PIP-10), with hostile entries
 			sc = GenTimelineScenarioWith(rt, DefaultCfg(), func(w *World, b *Block) {
 				if rapid.IntRange(0, 3).Draw(rt, "hostileHere") == 0 {
